@@ -265,11 +265,60 @@ func (e *cpuEnv) runControl(l *explore.Local, c ctlCase) *explore.Fail {
 						evs[i].t = t + b.Cycles - 1
 					}
 				}
-				// a request arriving while the dispatch is in progress: which source wins is unspecified
+				// a request arriving while the dispatch is in progress: which source wins is unspecified — but whichever does,
+				// the vector taken and the IF bit cleared must belong to the same interrupt, and it must be either the one
+				// selected at the boundary or the highest-priority one pending once the late request is in
+				late := uint8(0)
 				for _, in := range c.Inj {
 					if in[0] > t && in[0] < t+b.Cycles+1 {
-						return nil
+						late |= 1 << uint(in[1])
 					}
+				}
+				if late != 0 {
+					ifBefore := ifAt(t)
+					for k := 0; k < b.Cycles; k++ {
+						if k > 0 {
+							for _, in := range c.Inj {
+								if in[0] == t+k {
+									request(e, in[1])
+								}
+							}
+						}
+						e.m.CPU.ExecuteMachineCycle()
+					}
+					arrived := uint8(0)
+					for _, in := range c.Inj {
+						if in[0] > t && in[0] < t+b.Cycles {
+							arrived |= 1 << uint(in[1])
+						}
+					}
+					g := e.m.CPU.VGet()
+					if !e.m.CPU.VAtBoundary() {
+						return explore.Failf("dispatch with a late request: takes more machine cycles than documented", "%s: dispatch of %s begun at cycle %d", desc(), srcName[b.Source], t)
+					}
+					v := -1
+					for i, a := range ref.Vectors {
+						if g.PC == a {
+							v = i
+						}
+					}
+					hp := 0
+					for (ifBefore|arrived)&refIE&0x1f&(1<<uint(hp)) == 0 {
+						hp++
+					}
+					if v < 0 || (v != b.Source && v != hp) {
+						return explore.Failf("dispatch with a late request: continues at the wrong address", "%s: dispatch begun at cycle %d for %s, request(s) %05b arrived during it: PC=%04x", desc(), t, srcName[b.Source], arrived, g.PC)
+					}
+					gotIF := e.m.Map.Read(0xff0f) & 0x1f
+					if want := (ifBefore | arrived) &^ (1 << uint(v)); gotIF != want && gotIF != (ifBefore|late)&^(1<<uint(v)) {
+						return explore.Failf("dispatch with a late request: the IF bit cleared does not belong to the vector taken", "%s: dispatch begun at cycle %d with IF=%02x, request(s) %05b arrived during it: continues at %04x (%s) with IF=%02x, documented %02x", desc(), t, ifBefore, arrived, g.PC, srcName[v], gotIF, want)
+					}
+					if g.SP != pre.SP-2 || e.m.Map.Read(g.SP) != uint8(pre.PC) || e.m.Map.Read(g.SP+1) != uint8(pre.PC>>8) {
+						return explore.Failf("dispatch with a late request: return address not pushed", "%s: SP=%04x (was %04x), stack holds %02x%02x, next instruction was at %04x", desc(), g.SP, pre.SP, e.m.Map.Read(g.SP+1), e.m.Map.Read(g.SP), pre.PC)
+					}
+					e.log = e.log[:0]
+					l.Eval(1)
+					return nil
 				}
 				busyUntil = t + b.Cycles
 			case ref.BWake:
@@ -391,7 +440,7 @@ func init() {
 	register("C04", "model_checking", func(c *Ctx) {
 		if c.R != nil {
 			c.R.Rule = "(a) complete table IE(32) x IF(32) x IME(2) (+ unused high bits) at an instruction boundary; (b) every program of the length bound over {NOP, EI, DI, RETI, INC A, LDH (0F),A, LDH (FF),A, LD A,00, LD A,1F} x initial IME x IE in {00,1F,01,04,10,05} x one interrupt request of every source raised before every machine cycle 0..13 (and none), and for programs of up to 2 instructions (thorough 3) every pair of requests; the real CPU runs cycle by cycle, the reference control machine boundary by boundary; compared at every boundary: boundary times (dispatch = 5 cycles), all registers, IF, IE, pushed return address"
-			c.R.Assumptions = []string{"a request arriving while a dispatch is in progress: which source wins is unspecified (pruned)", "the IME flag itself is not observed, only its behavioural effect", "HALT directly after EI is outside this alphabet (C05 covers HALT)"}
+			c.R.Assumptions = []string{"a request arriving while a dispatch is in progress: which source wins is unspecified; required: vector and cleared IF bit belong to the same interrupt, which is the one selected at the boundary or the highest-priority one pending with the late request (the case ends there)", "the IME flag itself is not observed, only its behavioural effect", "HALT directly after EI is outside this alphabet (C05 covers HALT)"}
 		}
 		explore.Product(c.R, "boundary-table", explore.PartOpt{Bound: "one boundary + following instruction", Domain: "IE 0-31 x IF 0-31 x IME x high bits {00,E0}; again with the stack placed so that the low byte of the return address is pushed onto IE (SP=0001) or IF (SP=FF11) x 4 code addresses"},
 			func(yield func(c04Block) bool) {
